@@ -151,9 +151,17 @@ let check_C19 fields =
   (* lock-step cases are also judged by the per-message discipline (Terminate rule) *)
   check_with false (fun sc log -> oracle_C19 sc log && (not (is_lock fields) || oracle_turns sc log)) fields
 let check_C02 = check_with false (fun _ _ -> true)   (* the oracle is the strict grammar itself: an unparsable output is an oracle failure *)
+(* every ParameterDescription announces exactly the declared parameter types of a configured statement *)
+let paramdesc_from_config (sc : scase) (il : ev list) : bool =
+  let stmts = List.concat_map (fun (_, r) -> match r with POk ss -> ss | PErr _ -> []) sc.sc_parse in
+  let two32 = z_of_atom "4294967296" in
+  let norm l = List.map (fun o -> Z.modulo o two32) l in
+  List.for_all (function
+    | Out (BParamDesc l) -> List.exists (fun s -> norm s.s_poids = l) stmts
+    | _ -> true) il
 (* several connections on one server: each is judged on its own (the reply discipline, and the validator is asked
    about this connection's own database, user and password) *)
-let check_C15 = check_with true (fun sc log -> oracle_turns sc log && (sc.sc_auth = None || oracle_C01 sc log))
+let check_C15 = check_with true (fun sc log -> oracle_turns sc log && (sc.sc_auth = None || oracle_C01 sc log) && paramdesc_from_config sc log)
 
 (* C03: the variants of one byte stream (ids <n>.v<k>) must produce the identical log *)
 let seg_first : (string, string) Hashtbl.t = Hashtbl.create 1024
